@@ -96,7 +96,7 @@ Judge_dimacs(e) ==
       (IF e.hdr_nclauses = Len(e.clauses) THEN {} ELSE {"header_clause_count"})
       \cup (IF \A j \in 1..Len(e.clauses) : \A q \in 1..Len(e.clauses[j]) :
                  e.clauses[j][q] # 0 /\ e.clauses[j][q] \in (-e.hdr_nv)..e.hdr_nv THEN {} ELSE {"header_variable_count"})
-      \cup (IF Range(e.ind) = {e.vars[i] : i \in S} THEN {} ELSE {"sampling_set_not_startpoints"})
+      \cup (IF Len(e.vars) # c.n \/ Range(e.ind) = {e.vars[i] : i \in S} THEN {} ELSE {"sampling_set_not_startpoints"})
       \cup (IF (\A j \in 1..Len(e.clauses) : \A q \in 1..Len(e.clauses[j]) :
                  e.clauses[j][q] # 0 /\ e.clauses[j][q] \in (-e.hdr_nv)..e.hdr_nv)
                /\ Cardinality(Project(Models(e.hdr_nv, e.clauses), e.ind)) # Count(c, e.assum)
